@@ -544,9 +544,21 @@ def check_jw_entry_points(prog, rep):
     f = m.func('BaseMPSExpectationValue._term_to_ops_list')
     rep.instance('JW-entry', {'function': '_term_to_ops_list', 'needs': 'string to the left'})
     ok = False
+    # J: the relative position at which the operator itself is stored (`<lists>[J].append(op)`)
+    pos = {unparse(c.func.value.slice) for c in ast.walk(f) if isinstance(c, ast.Call) and
+           isinstance(c.func, ast.Attribute) and c.func.attr == 'append' and isinstance(
+               c.func.value, ast.Subscript) and c.args and not isinstance(c.args[0], ast.Constant)}
     for s in ast.walk(f):
-        if isinstance(s, ast.For) and unparse(s.iter) == 'range(j)' and "append('JW')" in unparse(s):
-            ok = True
+        if not (isinstance(s, ast.For) and "append('JW')" in unparse(s)):
+            continue
+        it = s.iter
+        for J in pos:
+            if unparse(it) in ('range(%s)' % J, 'range(0, %s)' % J):
+                ok = True      # for k in range(J): lists[k].append('JW')
+            if isinstance(it, ast.Subscript) and isinstance(it.slice, ast.Slice) and \
+                    it.slice.lower is None and it.slice.step is None and \
+                    it.slice.upper is not None and unparse(it.slice.upper) == J:
+                ok = True      # for names in lists[:J]: names.append('JW')
     if not ok:
         rep.violation('JW-entry', m, 'BaseMPSExpectationValue._term_to_ops_list', 'string-side',
                       'each fermionic operator at relative position j contributes JW on the '
